@@ -113,7 +113,7 @@ BEmit == phase = "done" => EmitRecord(rec)
 \* identical; a probe on (a copy of) the static context: each family either identical or (ret 0 and illegal callback);
 \* the families documented to work with the static context must be identical.
 TraceEvents == LoadTrace
-Families(ev) == { k \in DOMAIN ev.out : k \notin { "ret", "icb", "fault", "ecb" } }
+Families(ev) == { k \in DOMAIN ev.out : k \notin { "ret", "icb", "fault", "ecb", "sha_foreign" } }
 DocStatic == { "f_ecdsa_verify", "f_schnorr_verify", "f_tagged_sha256", "f_ecdh", "f_rangeproof_verify", "f_adaptor_verify",
                "f_seckey_tweak_add", "f_pubkey_tweak_add", "f_pubkey_tweak_mul", "f_ellswift_xdh", "f_musig_keyagg", "f_der", "f_keypair_tweak",
                "f_pedersen_tally", "f_s2c_verify_commit", "f_anti_exfil_host_verify", "f_rangeproof_info",
@@ -122,9 +122,12 @@ ProbeOK(ref, ev) ==
   IF ev.e = "CtxCallStatic"
   THEN \A f \in Families(ev) : \/ ev.out[f] = ref.out[f]
                                \/ (f \notin DocStatic /\ ev.out[f][1] = 0 /\ ev.out[f][2] = 1)
-  ELSE /\ \A f \in Families(ev) : ev.out[f] = ref.out[f]
+  ELSE /\ ev.e # "CtxFault"                                   \* a write into a read-only (const) context: never a behaviour
+       /\ \A f \in Families(ev) : f \in DOMAIN ref.out /\ ev.out[f] = ref.out[f]
        /\ ("fault" \in DOMAIN ev.out => ev.out.fault = 0)
-       /\ ev.e # "CtxFault"
+       \* a compression function installed on one private context is never reached through the static context, through the exported
+       \* context-free nonce functions, or after that context was destroyed (no mutable global state)
+       /\ ("sha_foreign" \in DOMAIN ev.out => ev.out.sha_foreign = 0)
 TInit == HInit /\ phase = "pick" /\ cur = 0 /\ rec = TRUE
 TPick == phase = "pick" /\ \E i \in 1..Len(TraceEvents) : cur' = i /\ phase' = "eval" /\ rec' = rec
 TEval == phase = "eval" /\ rec' = ProbeOK(TraceEvents[1], TraceEvents[cur]) /\ phase' = "done" /\ cur' = cur
